@@ -36,7 +36,8 @@ MANIFEST = dict(
          'count or length field is set to its maximum on a short input. Wall-clock bounds and constants are not decided.'
          ' The plain and augmented dictionary parsers are interpreted on bags whose root label is longer than the key (HmLabel n <= m violated): the number of parser calls must stay linear in the number of cells.'
          ' Bags whose cells reference each other (cycles) terminate within the iteration bound.'
-         ' The text front end of the bag parser (hexadecimal / base64 texts, malformed ones included) answers within the same bound. Dictionary fork chains whose labels are unterminated unary lengths stop at the key length.',
+         ' The text front end of the bag parser (hexadecimal / base64 texts, malformed ones included) answers within the same bound. Dictionary fork chains whose labels are unterminated unary lengths stop at the key length.'
+         ' Regular expressions applied in the parsers have no unbounded repetition whose body is, apart from optional parts, one unbounded repetition (rule D2r, structural).',
     note='trusted: interpreter (its call and loop counters), checker-side BoC encoder for the adversarial inputs. Dictionary parsing of maximally shared trees is exempt (the logical map itself is exponential there).',
     design_ref='DESIGN.md section 4 C19')
 
